@@ -429,7 +429,7 @@ pub fn synthetic_project(seed: u64) -> Project {
     let mut enum_decl = String::new();
     let use_enum = rng.chance(1, 4);
     if use_enum {
-        enum_decl = "export enum Color { Red = \"red\", Green = \"green\" }\n".to_string();
+        enum_decl = "export enum Color { Red = \"red\", Green = \"green\" }\nexport enum Flags {\n  None = 0,\n  Read = 1 << 0,\n  Write = 1 << 1,\n  Both = Read | Write,\n  Len = \"abc\".length,\n}\n".to_string();
     }
     let use_generic = rng.chance(1, 3);
     for i in 0..n_types {
@@ -453,12 +453,32 @@ pub fn synthetic_project(seed: u64) -> Project {
                     9 if use_generic => format!("Box<{}>", r(&mut rng)),
                     10 if use_enum => "Color".to_string(),
                     11 if poison && rng.chance(1, 2) => ["Date", "bigint", "Map<string, number>", "Set<string>"][rng.below(4)].to_string(),
-                    _ => prim[rng.below(prim.len() - 1)].to_string(),
+                    _ => match rng.below(14) {
+                        // template literals with regex metacharacters and slashes in the constant parts
+                        0 => "`/api/${string}/items`".to_string(),
+                        1 => "`${number}px`".to_string(),
+                        2 => "`a.b*c+(${string})?[x]|y^$`".to_string(),
+                        3 => "`id-${\"a\" | \"b\"}`".to_string(),
+                        // tuples, index signatures, readonly arrays
+                        4 => format!("[string, number?, ...{}[]]", r(&mut rng)),
+                        5 => format!("{{ [key: string]: {} }}", r(&mut rng)),
+                        6 => format!("readonly {}[]", r(&mut rng)),
+                        7 if use_enum => "Color.Red".to_string(),
+                        8 if use_enum => "Flags.Read".to_string(),
+                        9 if use_enum => "Flags".to_string(),
+                        10 => "\"it's\" | \"say \\\"hi\\\"\" | \"back\\\\slash\"".to_string(),
+                        _ => prim[rng.below(prim.len() - 1)].to_string(),
+                    },
                 };
                 // JSDoc on the referencing property: metadata lives on the reference site, the
                 // shared definition must not pick it up
                 let doc = if rng.chance(1, 3) { format!("/** doc {} of field {} of T{} */\n  ", rng.below(5), f, i) } else { String::new() };
-                fields.push(format!("  {}f{}{}: {};", doc, f, opt, t));
+                let fname = if f > 0 && rng.chance(1, 12) {
+                    ["\"constructor\"", "\"__proto__\"", "\"a-b\"", "\"with space\"", "\"quo\\\"te\"", "\"\u{e9}t\u{e9}\"", "\"toString\"", "\"0\""][rng.below(8)].to_string()
+                } else {
+                    format!("f{}", f)
+                };
+                fields.push(format!("  {}{}{}: {};", doc, fname, opt, t));
             }
             object_fields[i] = nf;
             format!("{{\n{}\n}}", fields.join("\n"))
@@ -536,6 +556,7 @@ pub fn synthetic_project(seed: u64) -> Project {
             let mut v = vec![];
             if use_enum {
                 v.push("Color");
+                v.push("Flags");
             }
             if use_generic {
                 v.push("Box");
@@ -556,6 +577,11 @@ pub fn synthetic_project(seed: u64) -> Project {
             }
             if rng.chance(1, 2) {
                 keys.push(format!("Inline: {{ a: {}; b: {}[] }}", names[0], names[n_types - 1]));
+            }
+            if rng.chance(1, 6) {
+                // parser names that collide with Object.prototype members or are reserved words
+                let hostile = ["constructor", "toString", "valueOf", "hasOwnProperty", "__proto__", "class", "default", "new"];
+                keys.push(format!("{}: {}", rng.pick(&hostile), names[0]));
             }
             src.push_str(&format!("parse.buildParsers<{{ {} }}>();\n", keys.join("; ")));
         }
